@@ -22,7 +22,7 @@ ROOTS = [
     ("acceptor", "connected_app_sends_when_active"), ("initiator", "logon_sent_app_sends_when_active"),
 ]
 CLASSES = ("logon", "hb", "tr", "rr", "gf", "rs", "logout", "app", "custom")
-DEFECTS = ("ok_at", "ok_above", "low", "low_pd", "bs", "no49", "no56", "bad49", "bad56", "swapped", "no34")
+DEFECTS = ("ok_at", "ok_above", "low", "low_pd", "bs", "no49", "no56", "bad49", "bad56", "swapped", "no34", "no108", "no98")
 SENDS = ("app", "hb", "tr_api", "logon", "logout", "rr")
 GROUP = {"logon": "logon", "logout": "logout", "app": "app", "custom": "app",
          "hb": "session", "tr": "session", "rr": "session", "gf": "seqreset", "rs": "seqreset"}
@@ -82,6 +82,8 @@ def make_frame(w, cls, defect):
     n = {"ok_at": E, "ok_above": E + 2, "low": E - 1, "low_pd": E - 1}.get(defect, E)
     if n < 1:
         return None
+    if defect in ("no108", "no98") and cls != "logon":
+        return None  # a Logon that lacks a required body field: header intact, number expected
     sender, target = T, S
     begin = b"FIX.4.4"
     if defect == "bs":
@@ -103,6 +105,10 @@ def make_frame(w, cls, defect):
         "gf": [(123, "Y"), (36, n + 1)], "rs": [(36, n + 1)], "logout": [], "app": [(11, "A1"), (55, "X")],
         "custom": [(5001, "z")],
     }[cls]
+    if defect == "no108":
+        body = [(98, 0)]
+    if defect == "no98":
+        body = [(108, 30)]
     mt = {"logon": "A", "hb": "0", "tr": "1", "rr": "2", "gf": "4", "rs": "4", "logout": "5", "app": "D", "custom": "U1"}[cls]
     return refs.frame(mt, seq, sender, target, body, extra_header=extra, begin=begin)
 
@@ -263,7 +269,13 @@ def apply(w, mon, stim, rootname, role):
     # no integrity defect (ok_at / ok_above)
     if not mon["logon_done"]:
         if cls == "logon":
-            if not a["dead"]:
+            # the exchange has completed when the acceptor has written its Logon reply / the initiator has left the
+            # "Logon sent" state - a Logon that was received but not accepted completes nothing
+            if c.connection_role.name == "ACCEPTOR":
+                done = "A" in wtypes
+            else:
+                done = a["state"] not in ("LOGON_INITIAL_SENT", "NETWORK_CONN_ESTABLISHED")
+            if not a["dead"] and done:
                 mon["logon_done"] = True
             if c.connection_role.name == "ACCEPTOR" and b["state"] == "NETWORK_CONN_ESTABLISHED" and wtypes and wtypes[0] != "A" and any(t not in ("A", "5", "2", "4") for t in wtypes):
                 return V("application_frame_before_logon_reply", f"{dg}", "until the Logon exchange has completed outbound sends other than Logon/Logout are refused")
@@ -327,7 +339,7 @@ def run(ctx):
         else:
             ok1.append(case)
     # depth 2: only after first steps that were fine (a history is cut at its first violation)
-    second = st if not ctx.quick else [s for s in st if s[0] != "in" or s[2] in ("ok_at", "low", "no34", "bad49", "ok_above") ]
+    second = st if not ctx.quick else [s for s in st if s[0] != "in" or s[2] in ("ok_at", "low", "no34", "bad49", "ok_above", "no108") ]
     cases2 = []
     for (root, s1) in ok1:
         for s2 in second:
